@@ -264,6 +264,22 @@ class ResolverMixin:  # pylint: disable=too-few-public-methods
 
             # if type is method, resolve the parameters.
             if isinstance(new_obj, CIMMethod):
+                # An overriding method must keep the signature of the
+                # overridden method (DSP0004): same parameter names.
+                super_params = superclass_objects[new_obj.name].parameters
+                if len(new_obj.parameters) != len(super_params) or \
+                        any(pname not in super_params
+                            for pname in new_obj.parameters.keys()):
+                    raise CIMError(
+                        CIM_ERR_INVALID_PARAMETER,
+                        _format("Invalid new_class method {0!A} in class "
+                                "{1!A}. Parameters {2!A} do not match the "
+                                "parameters {3!A} of the overridden method "
+                                "in class {4!A}.",
+                                obj_name, new_class.classname,
+                                list(new_obj.parameters.keys()),
+                                list(super_params.keys()),
+                                superclass.classname))
                 self._resolve_objects(
                     new_obj.parameters,
                     superclass_objects[new_obj.name].parameters,
